@@ -35,6 +35,9 @@ func (p propT) inLanguage() bool {
 		if t.IR != nil && ((t.IR.XMin == 2 && !t.IR.Min) || (t.IR.XMax == 2 && !t.IR.Max)) {
 			return false
 		}
+		if t.IR != nil && t.IR.Bad != 0 && (t.IR.Min || t.IR.Max) {
+			return false // bounds outside the format's range, or minimum above maximum: a semantic error
+		}
 	case "key":
 		if p.Optional && t.Ent == "primaryT" && p.Shape.Kind != "map" {
 			return false
@@ -74,6 +77,8 @@ type isoObs struct {
 	Opt3     bool
 	ErrText  string
 	Pos      []cmpb.Pos
+	NErr     int
+	AllPos   bool
 }
 
 func observeIso(content map[string]string) isoObs {
@@ -89,6 +94,13 @@ func observeIso(content map[string]string) isoObs {
 	case c.Err != nil:
 		o.ErrText = c.Err.Error()
 		o.Pos = cmpb.Positions(c.Err)
+		o.NErr = len(o.Pos)
+		o.AllPos = true
+		for _, p := range o.Pos {
+			if posProblem(p, content, mainFile) != "" {
+				o.AllPos = false
+			}
+		}
 		switch {
 		case strings.Contains(o.ErrText, "convertJ5File"):
 			o.Verdict = "VConvErr"
@@ -160,6 +172,23 @@ func runC07(cfg *vh.Config) error {
 		Type:   "c07case",
 		Check:  "c07_check",
 	}
+	ff := &vh.CasesFile{
+		Header: "From Coq Require Import String List NArith ZArith.\nFrom J5V.model Require Import BclLexer CmpbFields CmpbDecls CmpbFront CmpbWalker CmpbFrontCorr.",
+		Type:   "c07fcase",
+		Check:  "c07f_check",
+	}
+	var frontRecs []vh.CaseRec
+	// conversion errors of a located file: model of sourcewalk child / GetPos + addError against the real positions
+	convPos := func(caseNo int, stream string, in any, src string, lcoq string, pos []cmpb.Pos) {
+		fo := observeFront(src)
+		sp, all := errSpans(pos)
+		if !fo.HasFile || !all {
+			return
+		}
+		ff.Terms = append(ff.Terms, fmt.Sprintf("CConvPos %s %s %s", locTreeCoq(fo.Locs), lcoq, spansCoq(sp)))
+		frontRecs = append(frontRecs, vh.CaseRec{Case: caseNo, Stream: stream + "-pos", Input: in, Impl: map[string]any{"positions": pos}})
+		res.Count("convpos")
+	}
 	distinct := vh.Distinct{}
 	caseNo := 0
 	var corpus []map[string]string // valid bundles, seeds of the mutation stream
@@ -200,12 +229,15 @@ func runC07(cfg *vh.Config) error {
 				res.Fail(vh.Failure{Case: caseNo, Stream: "iso", Sig: "C07 documented language not accepted: " + gap, Clause: "every package within the documented language is accepted", Input: in, Got: o.ErrText})
 			}
 			checkPositions(res, caseNo, "iso", "iso conversion error", o.Pos, content, mainFile, in)
+			if pi%3 == int(cfg.Seed%3) || cfg.Tier == "thorough" {
+				convPos(caseNo, "iso", in, content[mainFile], fmt.Sprintf("[LObject %s false [%s]]", pathCoq(declPath(0, "object")), lpropCoq(p, declPath(0, "object"), 0)), o.Pos)
+			}
 		case "VOk":
 			if len(corpus) < 400 {
 				corpus = append(corpus, content)
 			}
 		}
-		cf.Terms = append(cf.Terms, fmt.Sprintf("CIso %s %q %s %s %s %q %s %s", p.Coq(), refFilePath, o.Verdict, coqStrList(o.Imports), coqStrList(o.Exts), o.PType, b(o.Repeated), b(o.Opt3)))
+		cf.Terms = append(cf.Terms, fmt.Sprintf("CIso %s %q %s %s %s %q %s %s %d%%nat %s", p.Coq(), refFilePath, o.Verdict, coqStrList(o.Imports), coqStrList(o.Exts), o.PType, b(o.Repeated), b(o.Opt3), o.NErr, b(o.AllPos)))
 		res.Cases = append(res.Cases, vh.CaseRec{Case: caseNo, Stream: "iso", Input: in, Impl: o})
 		if lang && o.Verdict == "VOk" && (p.Shape.Item.Rules || p.Shape.Item.LRules) {
 			res.Sample(map[string]any{"stream": "iso", "source": content[mainFile], "imports": o.Imports, "field_extensions": o.Exts}, 3)
@@ -235,6 +267,34 @@ func runC07(cfg *vh.Config) error {
 			}
 			acs = append(acs, absCase{"CService", sv.Coq(), sv.Text(), "foo/v1/service/a.p.j5s.proto", lang, lr})
 		}
+		// topics and object / oneof shells
+		msgs := func(prefix string, n int) string {
+			var sb strings.Builder
+			for i := 0; i < n; i++ {
+				fmt.Fprintf(&sb, "  message %s%d {\n    field x string\n  }\n", prefix, i)
+			}
+			return sb.String()
+		}
+		for n := 0; n <= 3; n++ {
+			acs = append(acs, absCase{fmt.Sprintf("CTopic (TPublish %d) \"\"", n), fmt.Sprintf("(TPublish %d)", n),
+				"package foo.v1\n\ntopic Thing publish {\n" + msgs("Post", n) + "}\n", "foo/v1/topic/a.p.j5s.proto", true, false})
+		}
+		for _, rr := range [][2]int{{0, 0}, {1, 0}, {0, 1}, {1, 1}} {
+			body := ""
+			if rr[0] == 1 {
+				body += "  request {\n    field x string\n  }\n"
+			}
+			if rr[1] == 1 {
+				body += "  reply {\n    field name string\n  }\n"
+			}
+			acs = append(acs, absCase{fmt.Sprintf("CTopic (TReqRes %d %d) \"j5/messaging/v1/reqres.proto\"", rr[0], rr[1]), fmt.Sprintf("(TReqRes %d %d)", rr[0], rr[1]),
+				"package foo.v1\n\ntopic Thing reqres {\n" + body + "}\n", "foo/v1/topic/a.p.j5s.proto", true, false})
+		}
+		acs = append(acs, absCase{"CTopic TUpsert \"j5/messaging/v1/upsert.proto\"", "TUpsert",
+			"package foo.v1\n\ntopic Thing upsert {\n  message UpsertThing {\n    field x string\n  }\n}\n", "foo/v1/topic/a.p.j5s.proto", true, false})
+		acs = append(acs, absCase{"CShell false false", "object", "package foo.v1\n\nobject Thing {\n  field x string\n}\n", mainProto, true, false})
+		acs = append(acs, absCase{"CShell false true", "entity object", "package foo.v1\n\nobject ThingKeys {\n  entity.entity = \"Thing\"\n  entity.part = \"KEYS\"\n  field thingId string\n}\n", mainProto, true, false})
+		acs = append(acs, absCase{"CShell true false", "oneof", "package foo.v1\n\noneof Thing {\n  option a object {\n    field x string\n  }\n}\n", mainProto, true, false})
 		obs := parallel(len(acs), "abs", caseNo,
 			func(i int) any { return map[string]any{"decl": acs[i].Coq, "files": map[string]string{mainFile: acs[i].Text}} },
 			func(i int) declObs { return observeDecl(acs[i].Text, acs[i].Path) })
@@ -248,23 +308,113 @@ func runC07(cfg *vh.Config) error {
 			switch o.Verdict {
 			case "VPanic":
 				if !a.ListReq { // the list_request panic is judged (and recorded) in the declaration stream
-					res.Fail(vh.Failure{Case: caseNo, Stream: "abs", Sig: fmt.Sprintf("C07 %s alone in a file: panic %s", a.Kind[1:], errClass(o.ErrText)), Clause: "never panics", Input: in, Got: o.ErrText})
+					res.Fail(vh.Failure{Case: caseNo, Stream: "abs", Sig: fmt.Sprintf("C07 %s alone in a file: panic %s", absKind(a.Kind), errClass(o.ErrText)), Clause: "never panics", Input: in, Got: o.ErrText})
 				}
 			case "VOther":
-				res.Fail(vh.Failure{Case: caseNo, Stream: "abs", Sig: fmt.Sprintf("C07 %s alone in a file: %s", a.Kind[1:], errClass(o.ErrText)), Clause: "generated file parses (harness expectation) / no hang", Input: in, Got: o.ErrText})
+				res.Fail(vh.Failure{Case: caseNo, Stream: "abs", Sig: fmt.Sprintf("C07 %s alone in a file: %s", absKind(a.Kind), errClass(o.ErrText)), Clause: "generated file parses (harness expectation) / no hang", Input: in, Got: o.ErrText})
 			case "VLinkErr":
-				res.Fail(vh.Failure{Case: caseNo, Stream: "abs", Sig: fmt.Sprintf("C07 %s alone in a file: link error in isolation", a.Kind[1:]), Clause: "accepted and links without depending on unrelated declarations", Input: in, Got: o.ErrText})
+				res.Fail(vh.Failure{Case: caseNo, Stream: "abs", Sig: fmt.Sprintf("C07 %s alone in a file: link error in isolation", absKind(a.Kind)), Clause: "accepted and links without depending on unrelated declarations", Input: in, Got: o.ErrText})
 			case "VConvErr":
 				if a.InLang {
-					res.Fail(vh.Failure{Case: caseNo, Stream: "abs", Sig: fmt.Sprintf("C07 %s of the documented language rejected (%s)", a.Kind[1:], errClass(o.ErrText)), Clause: "every package within the documented language is accepted", Input: in, Got: o.ErrText})
+					res.Fail(vh.Failure{Case: caseNo, Stream: "abs", Sig: fmt.Sprintf("C07 %s of the documented language rejected (%s)", absKind(a.Kind), errClass(o.ErrText)), Clause: "every package within the documented language is accepted", Input: in, Got: o.ErrText})
 				}
 			case "VOk":
 				if len(corpus) < 500 {
 					corpus = append(corpus, content)
 				}
 			}
-			cf.Terms = append(cf.Terms, fmt.Sprintf("%s %s %s %s %s", a.Kind, a.Coq, o.Verdict, coqStrList(o.Imports), coqStrList(o.Exts)))
+			if strings.HasPrefix(a.Kind, "CTopic") || strings.HasPrefix(a.Kind, "CShell") {
+				cf.Terms = append(cf.Terms, fmt.Sprintf("%s %s %s %s", a.Kind, o.Verdict, coqStrList(o.Imports), coqStrList(o.Exts)))
+			} else {
+				cf.Terms = append(cf.Terms, fmt.Sprintf("%s %s %s %s %s", a.Kind, a.Coq, o.Verdict, coqStrList(o.Imports), coqStrList(o.Exts)))
+			}
 			res.Cases = append(res.Cases, vh.CaseRec{Case: caseNo, Stream: "abs", Input: in, Impl: o})
+			caseNo++
+		}
+	}
+
+	// ---- stream 1c: whole files of several declarations against model/CmpbDecls.v file_state / file_verdict
+	{
+		rF := cfg.R.Fork("files")
+		pool := isoMatrix(rF, false)
+		nF := cfg.Scale(90, 1500)
+		type fileCase struct {
+			Coq     string
+			Files   map[string]string
+			InLang  bool
+			ListReq bool
+			LCoq    string
+		}
+		fcs := make([]fileCase, nF)
+		for i := range fcs {
+			c, f, l, lr, lc := genFile(rF, pool)
+			fcs[i] = fileCase{c, f, l, lr, lc}
+		}
+		type fobs struct {
+			Verdict              string
+			Main, Service, Topic []string
+			ErrText              string
+			Pos                  []cmpb.Pos
+		}
+		obs := parallel(nF, "file", caseNo,
+			func(i int) any { return map[string]any{"decls": fcs[i].Coq, "files": fcs[i].Files} },
+			func(i int) fobs {
+				c := compileOnce(fcs[i].Files, "foo.v1")
+				var o fobs
+				switch {
+				case c.TimedOut:
+					o.Verdict, o.ErrText = "VOther", "timeout"
+				case c.Panic != nil:
+					o.Verdict, o.ErrText = "VPanic", fmt.Sprint(c.Panic)
+				case c.Err != nil:
+					o.ErrText = c.Err.Error()
+					o.Pos = cmpb.Positions(c.Err)
+					switch {
+					case strings.Contains(o.ErrText, "convertJ5File"):
+						o.Verdict = "VConvErr"
+					case strings.HasPrefix(o.ErrText, "resolve file"):
+						o.Verdict = "VLinkErr"
+					default:
+						o.Verdict = "VOther"
+					}
+				default:
+					o.Verdict = "VOk"
+					if f := fileByPath(c.Files, mainProto); f != nil {
+						o.Main = depList(f)
+					}
+					if f := fileByPath(c.Files, "foo/v1/service/a.p.j5s.proto"); f != nil {
+						o.Service = depList(f)
+					}
+					if f := fileByPath(c.Files, "foo/v1/topic/a.p.j5s.proto"); f != nil {
+						o.Topic = depList(f)
+					}
+				}
+				return o
+			})
+		for i, fc := range fcs {
+			o := obs[i]
+			in := map[string]any{"decls": fc.Coq, "files": fc.Files}
+			distinct.Add(fc.Files[mainFile])
+			res.Count("file")
+			res.Count("file_" + o.Verdict)
+			switch o.Verdict {
+			case "VPanic":
+				if !fc.ListReq {
+					res.Fail(vh.Failure{Case: caseNo, Stream: "file", Sig: "C07 file of several declarations: panic " + errClass(o.ErrText), Clause: "never panics", Input: in, Got: o.ErrText})
+				}
+			case "VOther":
+				res.Fail(vh.Failure{Case: caseNo, Stream: "file", Sig: "C07 file of several declarations: " + errClass(o.ErrText), Clause: "generated file parses (harness expectation) / no hang", Input: in, Got: o.ErrText})
+			case "VLinkErr":
+				res.Fail(vh.Failure{Case: caseNo, Stream: "file", Sig: "C07 file of several declarations: link error (" + errClass(o.ErrText) + ")", Clause: "accepted and links", Input: in, Got: o.ErrText})
+			case "VConvErr":
+				if fc.InLang && !fc.ListReq {
+					res.Fail(vh.Failure{Case: caseNo, Stream: "file", Sig: "C07 file of in-language declarations rejected (" + errClass(o.ErrText) + ")", Clause: "every package within the documented language is accepted", Input: in, Got: o.ErrText})
+				}
+				checkPositions(res, caseNo, "file", "file conversion error", o.Pos, fc.Files, mainFile, in)
+				convPos(caseNo, "file", in, fc.Files[mainFile], fc.LCoq, o.Pos)
+			}
+			cf.Terms = append(cf.Terms, fmt.Sprintf("CFile %s %q %s %s %s %s", fc.Coq, refFilePath, o.Verdict, coqStrList(o.Main), coqStrList(o.Service), coqStrList(o.Topic)))
+			res.Cases = append(res.Cases, vh.CaseRec{Case: caseNo, Stream: "file", Input: in, Impl: o})
 			caseNo++
 		}
 	}
@@ -306,7 +456,7 @@ func runC07(cfg *vh.Config) error {
 			if strings.HasPrefix(c.Err.Error(), "resolve file") {
 				kind = "link error in isolation"
 			}
-			res.Fail(vh.Failure{Case: caseNo, Stream: "decl", Sig: fmt.Sprintf("C07 decl %s: %s (%s)", d.Name, kind, errClass(c.Err.Error())), Clause: "every package within the documented language is accepted and links", Input: in, Got: c.Err.Error()})
+			res.Fail(vh.Failure{Case: caseNo, Stream: "decl", Sig: fmt.Sprintf("C07 decl %s: %s (%s)", d.Name, kind, truncate(strings.TrimPrefix(errClass(c.Err.Error()), "loadPackage I: loadLocalPackage I: "), 60)), Clause: "every package within the documented language is accepted and links", Input: in, Got: c.Err.Error()})
 		default:
 			res.Count("decl_ok")
 			corpus = append(corpus, d.Files)
@@ -325,6 +475,10 @@ func runC07(cfg *vh.Config) error {
 	// ---- stream 3: malformed inputs (random bytes, byte flips, token mutations) through Compile and LintFile
 	rMut := cfg.R.Fork("mut")
 	nMut := cfg.Scale(350, 12000)
+	if len(corpus) == 0 {
+		// nothing compiled (every case above failed and was reported): mutate a fixed seed so the run completes
+		corpus = append(corpus, map[string]string{mainFile: "package foo.v1\n\nobject Foo {\n  field f string\n}\n"})
+	}
 	mutContents := make([]map[string]string, nMut)
 	mutHow := make([]string, nMut)
 	for i := 0; i < nMut; i++ {
@@ -451,6 +605,54 @@ func runC07(cfg *vh.Config) error {
 		caseNo++
 	}
 
+	// ---- stream 5: the front end alone (BCL parser + schema walker) on valid, malformed, semantic-error and
+	// walker-directed texts; position contract against C11's parser model; coverage of the unmodelled walker
+	{
+		var texts, how []string
+		seen := map[string]bool{}
+		add := func(t, h string) {
+			if !seen[t] {
+				seen[t] = true
+				texts = append(texts, t)
+				how = append(how, h)
+			}
+		}
+		for _, t := range walkerInputs() {
+			add(t, "walker-directed")
+		}
+		nValid := cfg.Scale(40, 400)
+		for i, c := range corpus {
+			if i >= nValid {
+				break
+			}
+			add(c[mainFile], "valid")
+		}
+		for _, d := range decls {
+			for _, fn := range sortedFileNames(d.Files) {
+				if strings.HasSuffix(fn, ".j5s") {
+					add(d.Files[fn], "declaration matrix "+d.Name)
+				}
+			}
+		}
+		for _, d := range sems {
+			for _, fn := range sortedFileNames(d.Files) {
+				if strings.HasSuffix(fn, ".j5s") {
+					add(d.Files[fn], "semantic error "+d.Name)
+				}
+			}
+		}
+		nMutFront := cfg.Scale(110, 3000)
+		for i := 0; i < nMut && i < nMutFront; i++ {
+			add(mutContents[i][mainFile], "malformed: "+mutHow[i])
+		}
+		for _, t := range texts {
+			distinct.Add("front:" + t)
+		}
+		ft, fr := runFront(cfg, res, &caseNo, texts, how)
+		ff.Terms = append(ff.Terms, ft...)
+		frontRecs = append(frontRecs, fr...)
+	}
+
 	res.Evaluations = caseNo
 	res.Distinct = len(distinct)
 	const per = 450
@@ -462,8 +664,27 @@ func runC07(cfg *vh.Config) error {
 		res.Cases[i].Shard = fmt.Sprintf("cases_%d", i/per)
 		res.Cases[i].Pos = i % per
 	}
-	res.Shards = shards
+	const perFront = 120
+	fshards, err := ff.WriteShards(cfg.Out, "front", perFront)
+	if err != nil {
+		return err
+	}
+	for i := range frontRecs {
+		frontRecs[i].Shard = fmt.Sprintf("front_%d", i/perFront)
+		frontRecs[i].Pos = i % perFront
+	}
+	res.Cases = append(res.Cases, frontRecs...)
+	res.Shards = append(shards, fshards...)
 	return res.Write(cfg.Out)
+}
+
+// absKind: "CTopic (TPublish 1) ..." -> "Topic"
+func absKind(k string) string {
+	k = strings.TrimPrefix(k, "C")
+	if i := strings.IndexByte(k, ' '); i > 0 {
+		k = k[:i]
+	}
+	return k
 }
 
 func truncate(s string, n int) string {
